@@ -140,9 +140,35 @@ pub fn run(opts: &Opts) -> i32 {
     } else {
         universes_for(opts)
     };
+    let static_replay = opts.replay.as_ref().map_or(false, |r| crate::read_json(&r.to_string_lossy()).map_or(false, |j| j["env"]["static_deser_type"] == json!(true)));
     let us = match build::prepare(opts, &labels) {
-        Ok(u) => u,
+        Ok(u) => {
+            if static_replay {
+                println!("OK property={} replay: the generated programs type-check again", opts.prop);
+                return 0;
+            }
+            u
+        }
         Err(e) => {
+            // C03 states what the ε-copy type *is*: each generated program converts the deserialized value with a
+            // function typed on the documented type, so a mismatch is a type error located in `eps_to_val`
+            if opts.prop == "C03" {
+                let mut agg = Agg::default();
+                for (label, errs) in build::LAST_ERRORS.lock().unwrap().iter() {
+                    for er in errs {
+                        if er.contains("E0308") && er.contains("fn eps_to_val<'a>") {
+                            let what = er.lines().find(|l| l.contains("expected `") && l.contains("found `")).map(|l| l.trim_start_matches(|c: char| c == ' ' || c == '|' || c == '-' || c == '^').trim().to_string()).unwrap_or_default();
+                            let subject = what.split("expected `&").nth(1).and_then(|x| x.split('`').next()).unwrap_or("?").to_string();
+                            agg.failures.push(json!({"subject": subject, "signature": "deser-type-static-mismatch", "universe": label, "val": Value::Null, "val_shown": "-", "env": {"static_deser_type": true},
+                                "message": format!("the ε-copy deserialization type is not the documented one ({}): the generated program that names the documented type does not type-check", what)}));
+                        }
+                    }
+                }
+                if !agg.failures.is_empty() {
+                    agg.failures.truncate(8);
+                    return finish(opts, &pi, agg, start, None);
+                }
+            }
             eprintln!("INFRASTRUCTURE: {}", e);
             return 2;
         }
